@@ -208,6 +208,9 @@ type lcScenario struct {
 	ErrBoth    bool   `json:"failing_exec_returns_error_result_and_error"` // func kind, result-style exec: a failing attempt returns NewErrorResult(e), e
 	PostPanic  bool   `json:"post_panics"`                // the post callback panics
 	WaitFirst  bool   `json:"wait_configured_before_retries"` // WithWait is applied before WithMaxRetries
+	MapPayload bool   `json:"map_payload"`                    // the prep value is a map[string]any (identity must be preserved)
+	PostBoth   bool   `json:"post_returns_action_and_error"`  // post fails and returns a non-empty action next to its error
+	Override   bool   `json:"retry_settings_by_overriding_getters"` // struct kind: GetMaxRetries/GetWait are overridden, the embedded BaseNode keeps its defaults
 }
 
 type lcEvent struct {
@@ -287,6 +290,9 @@ func (r *lcRec) doPost(s *SharedStore, p, x any) (Action, error) {
 	i := r.enter("post", s, p, x, nil)
 	defer r.leave(i)
 	if r.sc.PostErr {
+		if r.sc.PostBoth {
+			return Action(r.sc.PostAction), r.postErr
+		}
 		return "", r.postErr
 	}
 	if r.sc.PostPanic {
@@ -418,10 +424,45 @@ func lifecycleScenarios() []lcScenario {
 			extra = append(extra, lcScenario{Kind: kind, N: n, WaitMs: 15, ExecFail: []bool{true, false}, CancelAt: -1, WaitFirst: true},
 				lcScenario{Kind: kind, N: n, WaitMs: 15, ExecFail: []bool{true, true, true}, Fallback: true, CancelAt: -1, WaitFirst: true})
 		}
+		for _, n := range []int{1, 2} {
+			extra = append(extra, lcScenario{Kind: kind, N: n, ExecFail: []bool{false}, CancelAt: -1, MapPayload: true, Styles: 0},
+				lcScenario{Kind: kind, N: n, ExecFail: []bool{true, false}, Fallback: true, CancelAt: -1, MapPayload: true, Styles: 7})
+		}
+		extra = append(extra, lcScenario{Kind: kind, N: 1, ExecFail: []bool{false}, CancelAt: -1, PostErr: true, PostBoth: true, PostAction: "leaked"},
+			lcScenario{Kind: kind, N: 1, ExecFail: []bool{false}, CancelAt: -1, PostAction: " "},
+			lcScenario{Kind: kind, N: 1, ExecFail: []bool{false}, CancelAt: -1, PostAction: "\n\t"},
+			lcScenario{Kind: kind, N: 2, ExecFail: []bool{true, false}, CancelAt: -2, CauseCtx: true},
+			lcScenario{Kind: kind, N: 1, ExecFail: []bool{false}, CancelAt: -2, CauseCtx: true, InFlow: true})
 		extra = append(extra, lcScenario{Kind: kind, N: 1, ExecFail: []bool{false}, CancelAt: -1, PostPanic: true},
 			lcScenario{Kind: kind, N: 1, ExecFail: []bool{false}, CancelAt: -1, PostPanic: true, InFlow: true})
 	}
+	for _, n := range []int{2, 3} {
+		extra = append(extra, lcScenario{Kind: "struct", N: n, WaitMs: 15, ExecFail: []bool{true, false}, CancelAt: -1, Override: true},
+			lcScenario{Kind: "struct", N: n, WaitMs: 15, ExecFail: []bool{true, true, true}, Fallback: true, CancelAt: -1, Override: true})
+	}
 	return append(out, extra...)
+}
+
+// lcOverrideNode configures its wait the documented RetryableNode way: by overriding GetWait (the embedded BaseNode keeps wait 0).
+type lcOverrideNode struct {
+	lcStructNode
+	n int
+	w time.Duration
+}
+
+func (n *lcOverrideNode) GetWait() time.Duration { return n.w }
+
+type lcOverrideNodeFB struct{ lcOverrideNode }
+
+func (n *lcOverrideNodeFB) ExecFallback(p any, e error) (any, error) { return n.r.doFallback(p, e) }
+
+// samePayload: identity of payloads; maps (not comparable with ==) by their header pointer.
+func samePayload(a, b any) bool {
+	va, vb := reflect.ValueOf(a), reflect.ValueOf(b)
+	if va.IsValid() && vb.IsValid() && va.Kind() == reflect.Map && vb.Kind() == reflect.Map {
+		return va.Type() == vb.Type() && va.Pointer() == vb.Pointer()
+	}
+	return a == b
 }
 
 func runLifecycle(sc lcScenario, prop string) string {
@@ -432,6 +473,9 @@ func runLifecycle(sc lcScenario, prop string) string {
 		}
 		if sc.ErrPayload {
 			pv = errors.New("a recorded error used as a payload")
+		}
+		if sc.MapPayload {
+			pv = map[string]any{"k": 1}
 		}
 		r := &lcRec{sc: sc, pv: pv, fbVal: "fallback-value",
 			prepErr: errors.New("prep-error"), fbErr: errors.New("fallback-error"), postErr: errors.New("post-error"), errRes: errors.New("error-result")}
@@ -444,7 +488,7 @@ func runLifecycle(sc lcScenario, prop string) string {
 			ctx, r.cancel = cctx, func() { ccancel(errors.New("operator requested shutdown")) }
 		}
 		if sc.CancelAt == -2 {
-			cancel()
+			r.cancel()
 		}
 		if sc.OnDone {
 			ctx = &lcHookCtx{Context: ctx, onDone: r.cancel}
@@ -459,7 +503,14 @@ func runLifecycle(sc lcScenario, prop string) string {
 		retryable := true
 		switch sc.Kind {
 		case "struct":
-			if sc.Fallback {
+			if sc.Override {
+				base := lcOverrideNode{lcStructNode{NewBaseNode(WithMaxRetries(sc.N)), r}, sc.N, time.Duration(sc.WaitMs) * time.Millisecond}
+				if sc.Fallback {
+					node = &lcOverrideNodeFB{base}
+				} else {
+					node = &base
+				}
+			} else if sc.Fallback {
 				node = &lcStructNodeFB{lcStructNode{NewBaseNode(opts...), r}}
 			} else {
 				// BaseNode has a default ExecFallback that returns the error unchanged
@@ -744,7 +795,7 @@ func lifecycleOracle(sc lcScenario, r *lcRec, store *SharedStore, retryable bool
 			return "C01: prep did not receive the store given to the run"
 		}
 		for i, e := range execs {
-			if e.prep != r.pv {
+			if !samePayload(e.prep, r.pv) {
 				return fmt.Sprintf("C01/C17: exec attempt %d received %v instead of the value prep returned", i, e.prep)
 			}
 		}
@@ -756,7 +807,7 @@ func lifecycleOracle(sc lcScenario, r *lcRec, store *SharedStore, retryable bool
 		}
 		if len(posts) == 1 {
 			p := posts[0]
-			if p.store != store || p.prep != r.pv {
+			if p.store != store || !samePayload(p.prep, r.pv) {
 				return "C01: post did not receive the run's store and the prep value"
 			}
 			var want any
@@ -800,7 +851,7 @@ func lifecycleOracle(sc lcScenario, r *lcRec, store *SharedStore, retryable bool
 			return fmt.Sprintf("C02: fallback called %d times, expected=%v", len(fbs), expFallback)
 		}
 		if len(fbs) == 1 {
-			if fbs[0].prep != r.pv {
+			if !samePayload(fbs[0].prep, r.pv) {
 				return "C02: fallback did not receive the prep value"
 			}
 			if fbs[0].err != r.execErrs[len(r.execErrs)-1] {
@@ -951,7 +1002,10 @@ func flowScenarios() []flScenario {
 		out = append(out, g)
 	}
 	out = append(out, flScenario{Special: "inner-connected-after-wiring", Nested: -1, FailAt: -1, CancelAt: -1, Runs: 1},
-		flScenario{Special: "node-in-two-single-node-flows", Nested: -1, FailAt: -1, CancelAt: -1, Runs: 1})
+		flScenario{Special: "node-in-two-single-node-flows", Nested: -1, FailAt: -1, CancelAt: -1, Runs: 1},
+		flScenario{Special: "flow-with-its-own-retry-budget", Nested: -1, FailAt: -1, CancelAt: -1, Runs: 1},
+		flScenario{Special: "zero-size-node-types", Nested: -1, FailAt: -1, CancelAt: -1, Runs: 1},
+		flScenario{Special: "inner-flow-context-outlives-it", Nested: -1, FailAt: -1, CancelAt: -1, Runs: 1})
 	return out
 }
 
@@ -1111,21 +1165,119 @@ func nodeInTwoSingleNodeFlows() string {
 	})
 }
 
+// flowWithOwnRetryBudget: a flow is a node; given a retry budget of 3 its exec (the whole path) is re-attempted,
+// whether it is started with flow.Run or with Run(ctx, flow, store).
+func flowWithOwnRetryBudget() string {
+	return guard(func() string {
+		for _, viaMethod := range []bool{false, true} {
+			attempts := 0
+			n := NewNode().WithExecFuncAny(func(ctx context.Context, p any) (any, error) {
+				attempts++
+				if attempts < 2 {
+					return nil, errors.New("first attempt fails")
+				}
+				return "ok", nil
+			})
+			fl := NewFlow(n)
+			fl.BaseNode = NewBaseNode(WithMaxRetries(3))
+			var err error
+			if viaMethod {
+				err = fl.Run(context.Background(), NewSharedStore())
+			} else {
+				_, err = Run(context.Background(), fl, NewSharedStore())
+			}
+			if err != nil || attempts != 2 {
+				return fmt.Sprintf("C02: a flow with retry budget 3 whose first attempt fails and second succeeds (started with flow.Run: %v): %d attempt(s), error %v; want 2 attempts and success", viaMethod, attempts, err)
+			}
+		}
+		return ""
+	})
+}
+
+type zsNodeA struct{}
+type zsNodeB struct{}
+
+var zsLog []string
+
+func (*zsNodeA) Prep(ctx context.Context, s *SharedStore) (any, error) { return nil, nil }
+func (*zsNodeA) Exec(ctx context.Context, p any) (any, error)          { zsLog = append(zsLog, "A"); return nil, nil }
+func (*zsNodeA) Post(ctx context.Context, s *SharedStore, p, e any) (Action, error) {
+	return "next", nil
+}
+func (*zsNodeB) Prep(ctx context.Context, s *SharedStore) (any, error) { return nil, nil }
+func (*zsNodeB) Exec(ctx context.Context, p any) (any, error)          { zsLog = append(zsLog, "B"); return nil, nil }
+func (*zsNodeB) Post(ctx context.Context, s *SharedStore, p, e any) (Action, error) {
+	return "next", nil
+}
+
+// zeroSizeNodeTypes: two nodes of different stateless types (their pointers may share an address) are different nodes.
+func zeroSizeNodeTypes() string {
+	return guard(func() string {
+		zsLog = nil
+		a, b := &zsNodeA{}, &zsNodeB{}
+		var log []string
+		end := flLogNode(&log, "end", "x")
+		fl := NewFlow(a)
+		fl.Connect(a, "next", b)
+		fl.Connect(b, "next", end)
+		if err := fl.Run(context.Background(), NewSharedStore()); err != nil {
+			return "C03: " + err.Error()
+		}
+		if got := strings.Join(append(zsLog, log...), " "); got != "A B end" {
+			return fmt.Sprintf("C03: two nodes of different zero-size types connected A -next-> B -next-> end: visited %q, want \"A B end\"", got)
+		}
+		return ""
+	})
+}
+
+// innerFlowContextOutlivesIt: what a node inside an inner flow bound to its context is still usable by a later node of the parent.
+func innerFlowContextOutlivesIt() string {
+	return guard(func() string {
+		var seen context.Context
+		producer := NewNode().WithExecFuncAny(func(ctx context.Context, p any) (any, error) { seen = ctx; return nil, nil })
+		var stale error
+		consumer := NewNode().WithExecFuncAny(func(ctx context.Context, p any) (any, error) {
+			if seen != nil {
+				stale = seen.Err()
+			}
+			return nil, nil
+		})
+		inner := NewFlow(producer)
+		outer := NewFlow(inner)
+		outer.Connect(inner, DefaultAction, consumer)
+		if err := outer.Run(context.Background(), NewSharedStore()); err != nil {
+			return "C10: " + err.Error()
+		}
+		if stale != nil {
+			return fmt.Sprintf("C10: the context a node of the inner flow ran under is already done (%v) when the parent's next node runs; in the flattened machine both nodes share one live context", stale)
+		}
+		return ""
+	})
+}
+
 func runFlowScenario(sc flScenario, prop string) string {
 	if sc.Nested == -9 {
 		return nilEndedInnerFlow()
 	}
-	switch sc.Special {
-	case "rewire-inside-node":
-		return rewireInsideNode()
-	case "nested-empty-batch":
-		return nestedEmptyBatch()
-	case "cancel-then-batch":
-		return cancelThenBatch()
-	case "inner-connected-after-wiring":
-		return innerConnectedAfterWiring()
-	case "node-in-two-single-node-flows":
-		return nodeInTwoSingleNodeFlows()
+	// each special scenario belongs to the properties it speaks about
+	special := map[string]struct {
+		props []string
+		run   func() string
+	}{
+		"rewire-inside-node":             {[]string{"C03"}, rewireInsideNode},
+		"nested-empty-batch":             {[]string{"C03", "C10", "C18"}, nestedEmptyBatch},
+		"cancel-then-batch":              {[]string{"C05"}, cancelThenBatch},
+		"inner-connected-after-wiring":   {[]string{"C03", "C10"}, innerConnectedAfterWiring},
+		"node-in-two-single-node-flows":  {[]string{"C03", "C10"}, nodeInTwoSingleNodeFlows},
+		"flow-with-its-own-retry-budget": {[]string{"C02"}, flowWithOwnRetryBudget},
+		"zero-size-node-types":           {[]string{"C03"}, zeroSizeNodeTypes},
+		"inner-flow-context-outlives-it": {[]string{"C10"}, innerFlowContextOutlivesIt},
+	}
+	if sp, ok := special[sc.Special]; ok {
+		if !wants(prop, sp.props...) {
+			return ""
+		}
+		return sp.run()
 	}
 	return guard(func() string {
 		ctx, cancel := context.WithCancel(context.Background())
@@ -1252,6 +1404,7 @@ type btScenario struct {
 	MaxProcs    int    `json:"gomaxprocs"` // > 0: GOMAXPROCS is lowered to this for the run; every exec blocks until `concurrency` executions are in flight
 	WaitMs      int    `json:"wait_ms"`
 	SlowMs      int    `json:"slow_failing_attempt_ms"`
+	Special     string `json:"special,omitempty"` // mode-change-between-runs | free-slot-takes-next-item
 	Gate        string `json:"gate"` // "" | max-first | min-first: every exec attempt parks until a controller releases it; the controller releases the in-flight attempt with the highest / lowest item index once no new attempt arrives
 }
 
@@ -1331,12 +1484,104 @@ func batchScenarios() []btScenario {
 	}
 	out = append(out, btScenario{Items: 3, Concurrency: 3, Retries: 1, Fail: make([]int, 3), Payload: "results", CancelIn: -1, ErrResult: -1, MaxProcs: 2},
 		btScenario{Items: 9, Concurrency: 4, Retries: 1, Fail: make([]int, 9), Payload: "results", CancelIn: -1, ErrResult: -1, MaxProcs: 2})
+	for _, c := range []int{0, 1} {
+		out = append(out, btScenario{Items: 4, Concurrency: c, Retries: 1, Payload: "results", CancelIn: -1, ErrResult: -1, Special: "mode-change-between-runs"})
+	}
+	for _, c := range []int{2, 3} {
+		out = append(out, btScenario{Items: 2*c + 1, Concurrency: c, Retries: 1, Payload: "results", CancelIn: -1, ErrResult: -1, Special: "free-slot-takes-next-item"})
+	}
 	out = append(out, btScenario{Items: 0, Payload: "nil", CancelIn: -1, ErrResult: -1, Retries: 1}, btScenario{Items: 1, Payload: "single", CancelIn: -1, ErrResult: -1, Retries: 1, Fail: []int{0}},
 		btScenario{Items: 0, Payload: "results", CancelIn: -1, ErrResult: -1, Retries: 1, PostAction: "custom"})
 	return out
 }
 
+// batchModeChangeBetweenRuns: one batch node object, first run in stop mode, then reconfigured to continue mode.
+func batchModeChangeBetweenRuns(c int) string {
+	return guard(func() string {
+		executed := map[int]int{}
+		var mu sync.Mutex
+		b := NewBatchNode().WithBatchConcurrency(c).WithBatchErrorHandling(false).
+			WithPrepFunc(func(ctx context.Context, s *SharedStore) ([]Result, error) {
+				return []Result{NewResult(0), NewResult(1), NewResult(2), NewResult(3)}, nil
+			}).
+			WithExecFunc(func(ctx context.Context, item Result) (Result, error) {
+				i, _ := item.AsInt()
+				mu.Lock()
+				executed[i]++
+				mu.Unlock()
+				if i == 1 {
+					return Result{}, errors.New("item 1 fails")
+				}
+				return item, nil
+			}).
+			WithPostFunc(func(ctx context.Context, s *SharedStore, items, results []Result) (Action, error) { return "done", nil })
+		if _, err := Run(context.Background(), b, NewSharedStore()); err != nil {
+			return "C07: first run: " + err.Error()
+		}
+		b.WithBatchErrorHandling(true)
+		executed = map[int]int{}
+		if _, err := Run(context.Background(), b, NewSharedStore()); err != nil {
+			return "C07: second run: " + err.Error()
+		}
+		for i := 0; i < 4; i++ {
+			if executed[i] != 1 {
+				return fmt.Sprintf("C07: a batch node run in stop mode, then set to continue on errors and run again: item %d was processed %d time(s) in the second run (item 1 fails), want 1", i, executed[i])
+			}
+		}
+		return ""
+	})
+}
+
+// batchFreeSlotTakesNextItem: item 0 blocks until item c has started; with c workers a free slot must pick up the next pending item.
+func batchFreeSlotTakesNextItem(c, n int) string {
+	return guard(func() string {
+		started := make([]chan struct{}, n)
+		for i := range started {
+			started[i] = make(chan struct{})
+		}
+		var items []Result
+		for i := 0; i < n; i++ {
+			items = append(items, NewResult(i))
+		}
+		stuck := int32(0)
+		b := NewBatchNode().WithBatchConcurrency(c).
+			WithPrepFunc(func(ctx context.Context, s *SharedStore) ([]Result, error) { return items, nil }).
+			WithExecFunc(func(ctx context.Context, item Result) (Result, error) {
+				i, _ := item.AsInt()
+				close(started[i])
+				if i == 0 {
+					select {
+					case <-started[c]:
+					case <-time.After(1500 * time.Millisecond):
+						atomic.StoreInt32(&stuck, 1)
+					}
+				}
+				return item, nil
+			}).
+			WithPostFunc(func(ctx context.Context, s *SharedStore, items, results []Result) (Action, error) { return "done", nil })
+		if _, err := Run(context.Background(), b, NewSharedStore()); err != nil {
+			return "C08: " + err.Error()
+		}
+		if atomic.LoadInt32(&stuck) == 1 {
+			return fmt.Sprintf("C08: concurrency %d, %d items: while item 0 was blocked, item %d was not started although %d slot(s) were free (item 0 waited for it in vain)", c, n, c, c-1)
+		}
+		return ""
+	})
+}
+
 func runBatchScenario(sc btScenario, prop string) string {
+	switch sc.Special {
+	case "mode-change-between-runs":
+		if !wants(prop, "C07", "C09") {
+			return ""
+		}
+		return batchModeChangeBetweenRuns(sc.Concurrency)
+	case "free-slot-takes-next-item":
+		if !wants(prop, "C08") {
+			return ""
+		}
+		return batchFreeSlotTakesNextItem(sc.Concurrency, sc.Items)
+	}
 	return guard(func() string {
 		ctx, cancel := context.WithCancel(context.Background())
 		defer cancel()
@@ -1815,6 +2060,21 @@ func runStoreOps(seed int) string {
 // the store's own lock): no mutation may complete while a reader section is open, and no operation at all
 // while a writer section is open.
 func storeLockProbe() string {
+	{
+		st := NewSharedStore()
+		st.Set("strs", []string{"a", "b"})
+		st.Set("nums", []int{1, 2})
+		st.GetSlice("strs")
+		st.GetSliceOr("nums", nil)
+		st.GetInt("nums")
+		st.GetString("strs")
+		if v, _ := st.Get("strs"); reflect.TypeOf(v) != reflect.TypeOf([]string{}) {
+			return fmt.Sprintf("C13: Set(k, []string) followed only by getters: Get(k) now returns a %T; no sequential order of these operations on a plain map explains it", v)
+		}
+		if v, _ := st.Get("nums"); reflect.TypeOf(v) != reflect.TypeOf([]int{}) {
+			return fmt.Sprintf("C13: Set(k, []int) followed only by getters: Get(k) now returns a %T", v)
+		}
+	}
 	type op struct {
 		name string
 		run  func(st *SharedStore)
@@ -2170,6 +2430,14 @@ func configPresetReuse(label string) string {
 			WithPostFuncAny(func(ctx context.Context, s *SharedStore, p, e any) (Action, error) { return "done", nil }),
 			WithMaxRetries(3),
 			WithWait(2 * time.Millisecond),
+		}
+		calls := ""
+		nb := NewNode().
+			WithExecFuncAny(func(ctx context.Context, p any) (any, error) { calls += "any "; return "from-any", nil }).
+			WithMaxRetries(2).
+			WithExecFunc(func(ctx context.Context, p Result) (Result, error) { calls += "result "; return NewResult("from-result"), nil })
+		if _, err := Run(context.Background(), nb, NewSharedStore()); err != nil || calls != "result " {
+			return fmt.Sprintf("%s: NewNode().WithExecFuncAny(a).WithMaxRetries(2).WithExecFunc(r): the last setting must win; exec calls %q, error %v", label, calls, err)
 		}
 		for k := 1; k <= 3; k++ {
 			n := NewNode(preset...)
